@@ -16,10 +16,31 @@ Record scand := SCand {
 Definition render_cand (c : scand) : bytes := sc_pre c ++ sc_url c ++ sc_rest c.
 Definition render_srcset (l : list scand) : bytes := join (bs ",") (map render_cand l).
 
-(* the shape the splitter understands: the URL has neither comma nor white space, and what
-   follows it starts with the space character U+0020 (HTML also allows tab, LF, FF, CR there,
-   and allows commas inside a URL) *)
+(* a well-formed candidate, as HTML reads it: the URL is not empty, has no ASCII white space and
+   neither starts nor ends with a comma (commas inside are fine); what follows it is empty or
+   starts with ASCII white space and has no comma (a descriptor) *)
 Definition wf_cand (c : scand) : bool :=
+  forallb is_hspace (sc_pre c)
+  && match sc_url c with [] => false | x :: _ => negb (Ascii.eqb x ",") end
+  && forallb (fun x => negb (is_hspace x)) (sc_url c)
+  && negb (ends_comma (rev (sc_url c)))
+  && negb (has_byte "," (sc_rest c))
+  && match sc_rest c with [] => true | x :: _ => is_hspace x end.
+(* and a comma ends a candidate only when white space follows it or a descriptor precedes it *)
+Fixpoint wf_cands (l : list scand) : bool :=
+  match l with
+  | [] => true
+  | c :: r =>
+    wf_cand c && wf_cands r
+    && match r with
+       | c2 :: _ => match sc_rest c, sc_pre c2 with [], [] => false | _, _ => true end
+       | [] => true
+       end
+  end.
+
+(* the shape the splitter as found understood (srcset_urls_orig): no comma at all in the URL,
+   the descriptor introduced by the space character U+0020 *)
+Definition wf_cand_orig (c : scand) : bool :=
   forallb is_space (sc_pre c)
   && match sc_url c with [] => false | _ => true end
   && forallb (fun x => negb (is_space x) && negb (Ascii.eqb x ",")) (sc_url c)
@@ -38,17 +59,30 @@ Definition render_css (d : list ctok * bytes) : bytes := flat_map render_ctok (f
 
 Definition quote_ok (q : bytes) : bool :=
   match q with [] => true | [c] => is_quote c | _ => false end.
+Definition cap_char (c : ascii) : bool := negb (Ascii.eqb c ")") && negb (Ascii.eqb c nl).
+(* a style-attribute token body: no closing parenthesis, newline or quote *)
 Definition url_body_ok (u : bytes) : bool :=
   forallb (fun c => negb (Ascii.eqb c ")") && negb (Ascii.eqb c nl) && negb (is_quote c)) u.
+(* a url(...) body in a style element: no closing parenthesis or newline; neither its first nor
+   its last character is a quote or white space (quotes inside are fine) *)
+Definition edge_char (c : ascii) : bool := negb (is_quote c) && negb (is_space c).
+Definition css_body_ok (u : bytes) : bool :=
+  forallb cap_char u
+  && match u with [] => true | x :: _ => edge_char x end
+  && match rev u with [] => true | x :: _ => edge_char x end.
 (* a filler of a style element never contains the four characters u r l ( in a row *)
 Definition wf_ctok (t : ctok) : bool :=
-  negb (containsb (bs "url(") (ct_fill t)) && quote_ok (ct_q t) && url_body_ok (ct_url t).
+  negb (containsb (bs "url(") (ct_fill t)) && quote_ok (ct_q t) && css_body_ok (ct_url t).
 Definition wf_css (d : list ctok * bytes) : bool :=
   forallb wf_ctok (fst d) && negb (containsb (bs "url(") (snd d)).
 
-(* the heuristics of the style-element branch leave such a URL alone *)
-Definition css_kept (u : bytes) : bool :=
-  (containsb (bs "http") u || negb (containsb (bs "//") u)) && negb (prefixb (bs "#wp-") u).
+(* the one filter left in the style-element branch: matches that start with #wp- are dropped *)
+Definition css_kept (u : bytes) : bool := negb (prefixb (bs "#wp-") u).
+(* the code as found also rewrote: the URL came through unchanged only if it had no quote and
+   (contained http or had no double slash) *)
+Definition css_kept_orig (u : bytes) : bool :=
+  forallb (fun c => negb (is_quote c)) u
+  && (containsb (bs "http") u || negb (containsb (bs "//") u)) && negb (prefixb (bs "#wp-") u).
 
 (* ---------- style attribute: fillers without "(" and parenthesised tokens, alternating
    (the regular expression does not look for the word url: every group is a token) *)
